@@ -510,6 +510,55 @@ def getFunc (known : Key → Bool) (c : Cfg) : Except Err (Key × Assoc) :=
     else .error .attributeError
   | _ => .error .typeError
 
+/-! ### object sharing (Python aliasing) — what the functional model above does NOT express
+
+  `get_func` builds `functools.partial(func, **self.store)`: a NEW top-level keyword dict holding the
+  SAME nested dict objects as the live configuration (`SiftConfig(name, **other)`, `dict(cfg)` and
+  `SiftConfig(name, other.store)` copy the same way).  The two-level heap below states what that
+  means; the `Tree` model (`getFunc` returns a value) is the special case in which the configuration
+  is not edited after the partial / copy was taken.  Observed on the real code on every run (stream
+  `aliasing` of C18), not claimed by the property. -/
+namespace Alias
+
+/-- a top-level entry holds a plain value or the ADDRESS of a nested dict object -/
+inductive Slot
+  | val (t : Tree)
+  | ref (addr : Nat)
+
+/-- the nested dict objects -/
+abbrev Heap := Nat → Assoc
+/-- a top-level dict (the configuration's `store`, or a partial's `keywords`) -/
+abbrev Top := List (Key × Slot)
+
+def resolveSlot (h : Heap) : Slot → Tree
+  | .val t => t
+  | .ref a => .dict (h a)
+
+/-- the options a top-level dict denotes in a given heap -/
+def resolve (h : Heap) : Top → Assoc
+  | [] => .nil
+  | (key, s) :: r => .cons key (resolveSlot h s) (resolve h r)
+
+/-- `functools.partial(func, **store).keywords` / `dict(store)`: new top level, same objects -/
+def shallowCopy (top : Top) : Top := top
+
+/-- `cfg[key] = v` with a one-level key: rebinds an entry of the configuration's OWN top-level dict -/
+def setTop (top : Top) (key : Key) (v : Tree) : Top :=
+  match top with
+  | [] => [(key, .val v)]
+  | (k', s) :: r => if k' = key then (k', .val v) :: r else (k', s) :: setTop r key v
+
+/-- `cfg['parent/key'] = v`: mutates the nested dict OBJECT the parent entry refers to -/
+def setNested (h : Heap) (addr : Nat) (key : Key) (v : Tree) : Heap :=
+  fun a => if a = addr then (h a).insert key v else h a
+
+def slotOf (top : Top) (key : Key) : Option Slot :=
+  match top with
+  | [] => none
+  | (k', s) :: r => if k' = key then some s else slotOf r key
+
+end Alias
+
 /-! ### `get_config` -/
 
 /-- `_get_function_opts(func, ignore)` on a signature given as (parameter, default) in order -/
